@@ -56,7 +56,7 @@ def obs_lib(o):
         if c is not None:
             c = np.asarray(c, dtype=float).tolist()
         shape = 'plane' if isinstance(g, G.Plane) else 'curved'
-        surf.append(dict(z=f1(g.cs.position_in_gcs[2]), R=float(g.radius), k=float(getattr(g, 'k', 0.0)) if shape != 'plane' else 0.0, coeffs=c,
+        surf.append(dict(z=f1(g.cs.position_in_gcs[2]), R=float(g.radius), k=float(getattr(g, 'k', 0.0)), coeffs=c,
                          x=f1(g.cs.x), y=f1(g.cs.y), rx=float(g.cs.rx), ry=float(g.cs.ry), stop=bool(s.is_stop),
                          n_pre=[None if s.material_pre is None or k == 0 else f1(s.material_pre.n(w)) for w in WPROBE],
                          n_post=[f1(s.material_post.n(w)) for w in WPROBE], shape=shape))
@@ -190,7 +190,7 @@ def units(tier, variant):
         out.append(dict(kind='edits', lens='doublet', first=i, depth=5, restrict=both, variant=variant))
     # pickups registered while source and target are still flat, then the source is given a radius (histories of length <= 4)
     ops_w = edit_alphabet('plano-window', variant)
-    flat = [i for i, op in enumerate(ops_w) if op[0] == 'pickup' or op == ('update',) or op[0] == 'set_radius']
+    flat = [i for i, op in enumerate(ops_w) if op[0] == 'pickup' or op == ('update',) or op[0] in ('set_radius', 'set_conic')]
     for i in flat:
         out.append(dict(kind='edits', lens='plano-window', first=i, depth=4, restrict=flat, variant=variant))
     for name in initial_lenses(variant):
@@ -345,8 +345,8 @@ def edit_alphabet(name, v):
     for k in range(1, n + 1):
         s = surfs[k - 1]
         ops.append(('set_radius', k, 1.1 * p['R'] if k % 2 else -0.9 * p['R']))
-        if s['shape'] != 'plane':
-            ops.append(('set_conic', k, -0.45))
+        if s['shape'] != 'plane' or name in ('conic-asphere', 'plano-window'):
+            ops.append(('set_conic', k, -0.45))        # (on two lenses also on their flat surfaces)
         ops.append(('set_thickness', k, 3.5 if k % 2 else 11.0))
         if s['mat'] != 'mirror':
             ops.append(('set_index', k, 1.61))
